@@ -1,16 +1,17 @@
 use serde::de::Visitor;
 
-use crate::internal::error::{set_default, Context, ContextSupport, Error, Result};
+use crate::internal::error::{fail, set_default, Context, ContextSupport, Error, Result};
 
 use super::random_access_deserializer::RandomAccessDeserializer;
 
 pub struct NullDeserializer {
     path: String,
+    len: usize,
 }
 
 impl NullDeserializer {
-    pub fn new(path: String) -> Self {
-        Self { path }
+    pub fn new(path: String, len: usize) -> Self {
+        Self { path, len }
     }
 }
 
@@ -22,7 +23,10 @@ impl Context for NullDeserializer {
 }
 
 impl<'de> RandomAccessDeserializer<'de> for NullDeserializer {
-    fn is_some(&self, _idx: usize) -> Result<bool> {
+    fn is_some(&self, idx: usize) -> Result<bool> {
+        if idx >= self.len {
+            fail!("Out of bounds access");
+        }
         Ok(false)
     }
 
